@@ -268,16 +268,22 @@ def oracle_relay(r):
         return None
     scripts = dict(sc.files)
     dest = ir.get('dest', [])
-    for c in ir.get('src', []):
-        if cmd_name(c) != 'GetFileContent':
-            continue
-        p = bytes.fromhex(cmd_args(c)[0]).decode()
+    fetched = [bytes.fromhex(cmd_args(c)[0]).decode() for c in ir.get('src', []) if cmd_name(c) == 'GetFileContent']
+    written = []
+    for x in dest:
+        if cmd_name(x) == 'CreateOrUpdateFile':
+            p = bytes.fromhex(cmd_args(x)[0]).decode()
+            if p not in written:
+                written.append(p)
+    for p in fetched + [w for w in written if w not in fetched]:
         size = listed_size(sc, p)
         chunks, total, ended = [], 0, False
         for d, more in scripts.get(p, []):
             chunks.append(d); total += len(d)
             if not more:
                 ended = True; break
+        if p not in fetched:
+            return f'destination file {p!r} was written without reading the source at copy time (it then holds {total} bytes, listed {size})'
         if not ended or total != size:
             return f'success although source file {p!r} delivered {total} bytes (terminated={ended}) for a listed size of {size}'
         sent = [cmd_args(x) for x in dest if cmd_name(x) == 'CreateOrUpdateFile' and bytes.fromhex(cmd_args(x)[0]).decode() == p]
@@ -655,8 +661,8 @@ def check_C06(run):
         paths = c06_paths(rng)
         words = [w for p in paths for w in p.split('/') if w] or ['a']
         nf = rng.choice([0, 1, 1, 2, 3, 4])
-        asts = [(rng.choice('+-'), G.gen_re(rng, rng.randint(0, 3), words)) for _ in range(nf)]
-        cases.append(([s + G.render(a, 0, rng) for s, a in asts], asts, paths))
+        asts = [(rng.choice('+-'), ('e',) if rng.random() < 0.06 else G.gen_re(rng, rng.randint(0, 3), words)) for _ in range(nf)]
+        cases.append(([s + ('' if a == ('e',) else G.render(a, 0, rng)) for s, a in asts], asts, paths))
     for _ in range(300 if not thorough else 5000):
         paths = c06_paths(rng)
         fl = [rng.choice('+-') + rng.choice(G.OUT_OF_SUBSET) for _ in range(rng.randint(1, 3))]
@@ -691,9 +697,9 @@ def check_C06(run):
         run.cov['traces_validated_against_impl'] += 1
         if iv == 'panic' or (ov != 'err' and iv != 'err' and iv != ov):
             bad = [p[k] for k in range(len(p)) if k < len(iv) and k < len(ov) and iv[k] != ov[k]]
-            oracle_fail.append(dict(filters=f, paths=p, differing_paths=bad, impl=iv, oracle=ov, model=model.get(i)))
+            oracle_fail.append(dict(filters=f, paths=p, differing_paths=bad, impl=iv, oracle_verdicts=ov, model=model.get(i)))
         elif i in model and iv != 'err' and model[i] != 'impl=' + iv:
-            disagree.append(dict(filters=f, paths=p, impl=iv, oracle=ov, model=model[i], request_line=mlines[midx.index(i)]))
+            disagree.append(dict(filters=f, paths=p, impl=iv, oracle_verdicts=ov, model=model[i], request_line=mlines[midx.index(i)]))
     run.cov['disagreements_checked'] += len(cases)
 
     def on_broken(failed):
@@ -956,3 +962,124 @@ def check_C15(run):
         sb.close()
     run.cov['trusted_base'] = C.GLOBAL_TRUST + ['OsRng key freshness (distinctness is not proved)', 'the fake ssh/scp scripts run the remote command locally under bash; real ssh/scp are not exercised',
                                                 'the reader-thread message abstraction of the handshake loop (Line/Started/Completed/Closed/Error) is hand-modelled; its tie is the L4 matrix']
+
+
+# ------------------------------------------------------------------ C14
+
+def c14_gen_msg(rng, big=False):
+    strs = ['', 'a', 'a/b', 'dir/é/x y', 'p' * 300, 'ü\u4e2d\U0001f600', 'C:\\w', '/abs/root/']
+    def s(): return C.X(rng.choice(strs))
+    def data():
+        if big:
+            return 'z%d:%d' % (rng.choice([4095, 4096, 4097, 65536, 1 << 20, (1 << 22) - 1, 1 << 22, (1 << 22) + 1]), rng.randint(0, 255))
+        r = rng.random()
+        if r < 0.3: return 'x' + bytes(rng.getrandbits(8) for _ in range(rng.randint(0, 40))).hex()
+        return 'z%d:%d' % (rng.choice([0, 1, 31, 32, 33, 255, 256, 1000, 4096]), rng.randint(0, 255))
+    def det():
+        r = rng.random()
+        if r < 0.4: return 'F:%d:%d' % (rng.choice(l2.TIMES + [2**63 - 1, 10**18 + 999999999]), rng.choice([0, 1, 2**32, 2**63]))
+        if r < 0.6: return 'D'
+        return l2.det_link(rng.choice(l2.KINDS), rng.choice(l2.TARGETS + [('N', 'é/ü'), ('X', '')]))
+    def marker():
+        k = rng.choice('DCX'); w = str(rng.choice([0, 1, 2**40, 2**64 - 1]))
+        return [w, k] + ([str(rng.choice([0, 7, 2**32 - 1]))] if k == 'D' else [str(rng.choice([0, 9])), str(rng.choice([0, 2**50]))] if k == 'C' else [])
+    if rng.random() < 0.55 or big:
+        v = rng.choice(['CUF'] if big and rng.random() < 0.5 else ['SR', 'GE', 'CRA', 'GFC', 'CUF', 'CS', 'CF', 'DF', 'DD', 'DS', 'PTS', 'MK', 'SH'])
+        if big and v != 'CUF':
+            return ['R', 'FC', data(), str(rng.randint(0, 1))]
+        t = {'SR': lambda: [s()], 'GE': lambda: [str(n := rng.randint(0, 3))] + [x for _ in range(n) for x in (rng.choice('+-'), C.X(rng.choice(['^a$', '^(?:.*\\.txt)$', '^é$'])))],
+             'CRA': lambda: [], 'GFC': lambda: [s()], 'CUF': lambda: [s(), data(), rng.choice(['-', str(rng.choice(l2.TIMES))]), str(rng.randint(0, 1))],
+             'CS': lambda: [s(), rng.choice(l2.KINDS), (lambda t: t[0] + t[1].encode().hex())(rng.choice(l2.TARGETS))], 'CF': lambda: [s()], 'DF': lambda: [s()], 'DD': lambda: [s()],
+             'DS': lambda: [s(), rng.choice(l2.KINDS)], 'PTS': lambda: [], 'MK': marker, 'SH': lambda: []}[v]()
+        return ['C', v] + t
+    v = rng.choice(['RD', 'EN', 'EE', 'FC', 'PT', 'MK', 'ER'])
+    t = {'RD': lambda: [rng.choice(['-', det()]), str(rng.randint(0, 1)), str(rng.choice([47, 92]))], 'EN': lambda: [s(), det()], 'EE': lambda: [],
+         'FC': lambda: [data(), str(rng.randint(0, 1))], 'PT': lambda: [str(rng.choice([0, 5, 2**40])), str(rng.choice([0, 999999999]))], 'MK': marker, 'ER': lambda: [s()]}[v]()
+    return ['R', v] + t
+
+
+@prop('C14')
+def check_C14(run):
+    thorough = run.tier == 'thorough'
+    if not prepare(run):
+        return
+    st = run.extract_status
+    chan_bad = {k: v for k, v in st.items() if k.startswith('channel:')}
+    rng = run.rng
+    run.cov['rule'] = ('L1: real bincode bytes / serialized_size / decode of generated Command and Response values of every variant (payloads 0..4 MiB+1) = the model\'s bytes; '
+                       'the real memory-bound channel between two threads for capacities {0,1,size-1,size,2*size,100 MiB}: sends admitted with an idle receiver = model, '
+                       'then everything arrives in order and intact and the accounted size returns to 0; an honest run of the real TCP link; non-trivial = payload-carrying message / capacity below the total; distinct by request line')
+    msgs = [c14_gen_msg(rng) for _ in range(3000 if not thorough else 30000)] + [c14_gen_msg(rng, big=True) for _ in range(12 if not thorough else 60)]
+    lines = ['wire ' + ' '.join(m) for m in msgs]
+    impl = [a for a, _ in C.run_harness(lines, timeout=1800)]
+    model = C.run_model(lines, timeout=1800)
+    bad = None
+    for m, l, i_ans, m_ans in zip(msgs, lines, impl, model):
+        nt = m[1] in ('CUF', 'FC', 'EN', 'GE', 'CS', 'RD')
+        run.case(('wire', l), nt, sample=dict(layer='L1', message=l[:200], impl=i_ans[:200]) if nt and m[1] in ('CUF', 'EN') else None)
+        run.count('wire:' + m[0] + ':' + m[1]); run.cov['traces_validated_against_impl'] += 1
+        f = dict(x.split('=') for x in i_ans.split()) if i_ans.startswith('len=') else {}
+        if not f or f.get('rt') != '1' or f.get('size') != f.get('len'):
+            run.violation(dict(kind='oracle-failed-on-implementation', oracle='decode(encode m) re-encodes to the same bytes; serialized_size = length', layer='L1', request_line=l[:500], impl=i_ans[:500]))
+            bad = True; break
+        if not i_ans.startswith(m_ans + ' '):
+            run.violation(dict(kind='correspondence-broken', correspondence='L1/bincode-bytes', request_line=l[:500], impl=i_ans[:400], model=m_ans[:400]), no_input=True)
+            bad = True; break
+    run.cov['disagreements_checked'] += len(lines)
+    # channel
+    cases = []
+    for _ in range(200 if not thorough else 2000):
+        n = rng.randint(1, 8)
+        sizes = [rng.choice([13, 14, 100, 1000, 5000]) for _ in range(n)]
+        if rng.random() < 0.5:
+            sizes = [rng.choice([100, 1000])] * n
+        sz = sizes[0]; tot = sum(sizes)
+        for cap in {0, 1, sz - 1, sz, 2 * sz, rng.choice([tot - 1, tot, tot // 2]), 100 * 1024 * 1024}:
+            cases.append((max(cap, 0), sizes))
+    cases = cases[: (600 if not thorough else 6000)]
+    mlines = ['chan %d %s' % (cap, ' '.join(map(str, sizes))) for cap, sizes in cases]
+    model = C.run_model(mlines)
+    hlines = ['chan %d %s %d %s' % (cap, m.split('=')[1], len(sizes), ' '.join(map(str, sizes))) for (cap, sizes), m in zip(cases, model)]
+    impl = [a for a, _ in C.run_harness(hlines, timeout=1800)]
+    chan_fail = []
+    for (cap, sizes), m_ans, i_ans, hl in zip(cases, model, impl, hlines):
+        # independent oracle: a send is admitted iff what was counted before it does not exceed the capacity
+        adm, before = 0, 0
+        for s in sizes:
+            if before > cap: break
+            adm += 1; before += s
+        nt = adm < len(sizes)
+        run.case(('chan', hl), nt, sample=dict(layer='channel', capacity=cap, sizes=sizes, impl=i_ans) if nt else None)
+        run.count('channel:' + ('sender-held-back' if nt else 'all-admitted')); run.cov['traces_validated_against_impl'] += 1
+        want = f'admitted={adm} intact_in_order=1 counter_end=0 extra=0'
+        if i_ans != want:
+            chan_fail.append(dict(layer='channel', request_line=hl, capacity=cap, sizes=sizes, impl=i_ans, oracle=want, model=m_ans))
+        elif not i_ans.startswith(m_ans + ' '):
+            run.violation(dict(kind='correspondence-broken', correspondence='channel/admission', request_line=hl, impl=i_ans, model=m_ans), no_input=True)
+            break
+    run.cov['disagreements_checked'] += len(cases)
+    # honest TCP link
+    key = '%032x' % rng.getrandbits(128)
+    tl = []
+    for _ in range(20 if not thorough else 200):
+        nb, nd = rng.randint(0, 30), rng.randint(0, 30)
+        tl.append((nb, nd, f'mitm {key} {nb} {nd} {nb} ' + ' '.join(f'fb{i}' for i in range(nb)) + f' {nd} ' + ' '.join(f'fd{i}' for i in range(nd))))
+    for (nb, nd, l), (ans, _) in zip(tl, C.run_harness([' '.join(x[2].split()) for x in tl])):
+        run.case(('tcp', l), nb + nd > 0, sample=None); run.count('tcp-link:honest'); run.cov['traces_validated_against_impl'] += 1
+        want = 'toDoer=[%s] toBoss=[%s] reuse=0' % (','.join(map(str, range(nb))), ','.join(map(str, range(nd))))
+        if ans != want:
+            run.violation(dict(kind='oracle-failed-on-implementation', oracle='honest TCP link delivers everything exactly once in order', layer='link', request_line=l, impl=ans, want=want))
+            break
+
+    def on_broken(failed):
+        if chan_fail:
+            return dict(found_by='real channel runs with an idle receiver', **min(chan_fail, key=lambda o: len(o['request_line'])))
+        return None
+    C.proofs_step(run, 'C14', on_broken)
+    if chan_fail and not any(not v[1] for v in run.violations):
+        run.violation(dict(kind='oracle-failed-on-implementation', oracle='admitted iff counted-before <= capacity; all arrive in order, intact; accounted size 0 after draining',
+                           failing_cases=len(chan_fail), **min(chan_fail, key=lambda o: len(o['request_line']))))
+    if chan_bad:
+        run.cov['extraction_differs'] = chan_bad
+    run.cov['trusted_base'] = C.GLOBAL_TRUST + ['bincode 1.3 default configuration and serde derive are what the model encodes (validated byte-for-byte on this run\'s messages); strings are carried as UTF-8 bytes; Response::ProfilingData is not modelled',
+                                                'crossbeam unbounded channel = FIFO; Relaxed atomics on one counter are coherent per location; the channel skeleton extractor (feature record)']
